@@ -167,7 +167,7 @@ func runCheck(prop, tier, repo string, seed int, overlay map[string][]byte, repo
 		}
 		res.obls = append(res.obls, f.obls...)
 	}
-	cfg := &SolveConfig{Timeout: 40 * time.Second, Dir: scratchDir(), CacheDir: filepath.Join(verifDir, ".cache"), Workers: 16}
+	cfg := &SolveConfig{Timeout: 60 * time.Second, Dir: scratchDir(), CacheDir: filepath.Join(verifDir, ".cache"), Workers: 16}
 	if tier == "thorough" {
 		cfg.Timeout = 120 * time.Second
 		cfg.Double = true
